@@ -17,7 +17,7 @@ var c07Dims = [][]string{
 	{"", "@@"},
 	{"", "important"},
 	{"", "domain=a.com", "domain=~a.com"},
-	{"", "script", "script,image", "~script"},
+	{"", "script", "script,image", "~script", "script,image,stylesheet,subdocument,object,xmlhttprequest,media,font,websocket,ping,other"},
 	{"", "third-party", "match-case", "~third-party"},
 	{"", "dnstype=A", "dnstype=~A"},
 	{"", "ctag=x", "ctag=~x"},
@@ -296,7 +296,7 @@ func TestC07(t *testing.T) {
 					continue
 				}
 				for alt := 1; alt < len(c07Dims[d]); alt++ {
-					if d == 3 && alt == 2 {
+					if d == 3 && (alt == 2 || alt == 4) {
 						continue // two content types at once: not "one modifier added"
 					}
 					v2 := append([]int{}, vec...)
